@@ -478,7 +478,7 @@ func runC03(c *Ctx) {
 				H := u.ToBool(g.RetExpr(s, 0))
 				var any, p0 Ref = False, False
 				for _, at := range u.AtomsOf(H) {
-					if at.Op == "call" && (at.Aux == "(*regexp.Regexp).MatchString" || at.Aux == "(*regexp.Regexp).Match") && at.Args[0].Op == "field" && at.Args[0].Aux == "regex" {
+					if at.Op == "call" && (at.Aux == "(*regexp.Regexp).MatchString" || at.Aux == "(*regexp.Regexp).Match") {
 						any = u.bdd.Or(any, u.Atom(at))
 					}
 					if at.Op == "eq" {
